@@ -54,7 +54,8 @@ def one(name, src, snap, ids):
     meta["results"] = res
     dst = os.path.join(VERIF, "refactors", name)
     os.makedirs(dst, exist_ok=True)
-    shutil.copy(patch, dst + "/patch.diff")
+    if os.path.abspath(patch) != os.path.abspath(dst + "/patch.diff"):
+        shutil.copy(patch, dst + "/patch.diff")
     json.dump(meta, open(dst + "/meta.json", "w"), indent=1, default=str)
     print(name, "suite:", res["suite_with_patch"], "alarms:", alarms, flush=True)
 
